@@ -25,9 +25,23 @@ type Script struct {
 	Body   Str     `json:"body,omitempty"`
 }
 
-func (s Script) run(w http.ResponseWriter, _ *http.Request) {
+// Overlap is a second request that is served, start to finish, by the same
+// wrapped handler while the first request's inner handler is between its
+// header operations and its WriteHeader: two requests in flight at once, in
+// an order the harness owns.
+type Overlap struct {
+	Req    Req    `json:"req"`
+	Script Script `json:"script"`
+}
+
+func (s Script) run(w http.ResponseWriter, r *http.Request) { s.runWith(w, r, nil) }
+
+func (s Script) runWith(w http.ResponseWriter, _ *http.Request, between func()) {
 	h := w.Header()
 	applyOps(h, s.Ops)
+	if between != nil {
+		between()
+	}
 	if s.Status != 0 {
 		w.WriteHeader(s.Status)
 	}
@@ -50,16 +64,17 @@ func applyOps(h http.Header, ops []HdrOp) {
 }
 
 type C11Case struct {
-	Cfg    *Cfg   `json:"cfg"` // nil = passthrough (zero value or Reconfigure(nil))
-	ViaNil bool   `json:"via_reconfigure_nil,omitempty"`
-	Debug  bool   `json:"debug,omitempty"`
-	Req    Req    `json:"req"`
-	Preset []HV   `json:"preset,omitempty"`
-	Script Script `json:"script"`
+	Cfg     *Cfg     `json:"cfg"` // nil = passthrough (zero value or Reconfigure(nil))
+	ViaNil  bool     `json:"via_reconfigure_nil,omitempty"`
+	Debug   bool     `json:"debug,omitempty"`
+	Req     Req      `json:"req"`
+	Preset  []HV     `json:"preset,omitempty"`
+	Script  Script   `json:"script"`
+	Overlap *Overlap `json:"overlap,omitempty"`
 }
 
 func (c C11Case) Brief() any {
-	return map[string]any{"cfg": c.Cfg, "via_reconfigure_nil": c.ViaNil, "debug": c.Debug, "req": c.Req.Brief(), "preset": c.Preset, "script": c.Script}
+	return map[string]any{"cfg": c.Cfg, "via_reconfigure_nil": c.ViaNil, "debug": c.Debug, "req": c.Req.Brief(), "preset": c.Preset, "script": c.Script, "overlap": c.Overlap}
 }
 
 var scriptKeys = []string{"Vary", "Access-Control-Allow-Origin", "Access-Control-Allow-Credentials", "Access-Control-Expose-Headers", "Access-Control-Allow-Methods",
@@ -133,6 +148,25 @@ func c11Gen(t *rapid.T) C11Case {
 	}
 	c.Script.Status = pick(t, "status", []int{0, 0, 200, 201, 204, 301, 404, 403, 500, 599, 299})
 	c.Script.Body = Str(pick(t, "body", []string{"", "", "hello", "{}", "\x00\xff"}))
+	if chance(t, "overlap", 25) {
+		o := &Overlap{Req: c.Req}
+		if chance(t, "overlapreq", 40) {
+			o.Req = genReq(t, p)
+		}
+		if chance(t, "overlapsame", 60) {
+			// the same operations on the same names with other values: the two handlers touch the same slots
+			for _, op := range c.Script.Ops {
+				op.Val += "-2"
+				o.Script.Ops = append(o.Script.Ops, op)
+			}
+		} else {
+			for i, n := 0, uniform(t, "nops2", 5); i < n; i++ {
+				o.Script.Ops = append(o.Script.Ops, HdrOp{Op: pick(t, "op2", []string{"set", "add", "add", "del"}), Key: pick(t, "opkey2", scriptKeys), Val: "other"})
+			}
+		}
+		o.Script.Status = pick(t, "status2", []int{0, 200, 404})
+		c.Overlap = o
+	}
 	return c
 }
 
@@ -157,10 +191,30 @@ func c11Check(c C11Case, rec *Recorder) *Disc {
 	} else {
 		m = new(cors.Middleware)
 	}
-	resp := DoScript(m.Wrap, c.Req, c.Preset, c.Script.run)
+	srv := NewServer(m.Wrap)
+	run := c.Script.run
+	var inner *Resp
+	if c.Overlap != nil {
+		rec.Class("with-overlapping-request")
+		run = func(w http.ResponseWriter, r *http.Request) {
+			c.Script.runWith(w, r, func() {
+				x := DoScript(srv.Wrap, c.Overlap.Req, nil, c.Overlap.Script.run)
+				inner = &x
+			})
+		}
+	}
+	resp := DoScript(srv.Wrap, c.Req, c.Preset, run)
 	rec.Eval(1)
+	if inner != nil && inner.Called == 1 {
+		// the overlapping request's own handler output reaches its client too
+		want := cloneHeader(inner.Entry)
+		applyOps(want, c.Overlap.Script.Ops)
+		if !headerMapsEqual(inner.Hdr, want) {
+			return discf("cfg %+v debug=%v: request {%s} served while {%s} was in flight: its handler's headers did not reach the client unchanged: want %s got %s", c.Cfg, c.Debug, c.Overlap.Req.Brief(), c.Req.Brief(), abbrev(hdrSig(want), 400), abbrev(hdrSig(inner.Hdr), 400))
+		}
+	}
 	preset := NewRec(c.Preset).H
-	where := fmt.Sprintf("cfg %+v debug=%v request {%s} preset %v script %+v -> status %d called=%d headers %s", c.Cfg, c.Debug, c.Req.Brief(), c.Preset, c.Script, resp.Status, resp.Called, abbrev(hdrSig(resp.Hdr), 500))
+	where := fmt.Sprintf("cfg %+v debug=%v request {%s} preset %v script %+v overlap %+v -> status %d called=%d headers %s", c.Cfg, c.Debug, c.Req.Brief(), c.Preset, c.Script, c.Overlap, resp.Status, resp.Called, abbrev(hdrSig(resp.Hdr), 500))
 
 	vo, hasO := c.Req.Get(hOrigin)
 	vm, hasM := c.Req.Get(hACRM)
@@ -264,7 +318,7 @@ func c11Check(c C11Case, rec *Recorder) *Disc {
 func TestC11(t *testing.T) {
 	Prop[C11Case]{ID: "C11", Gen: c11Gen, Check: c11Check,
 		Rule: "generator: configured (any valid configuration, both debug modes) or passthrough (zero value / Reconfigure(nil) after debug) middleware x method x Origin and ACRM each in {absent, present with zero values, empty string, one value, two values} x ACRH/ACRPN " +
-			"x inner-handler script (header Set/Add/Del on names incl. Vary and Access-Control-*, status none/2xx-5xx, body) x pre-set response headers from an outer wrapper. Oracle: predicate 'configured and OPTIONS and >=1 Origin value and >=1 ACRM value' decides: " +
+			"x inner-handler script (header Set/Add/Del on names incl. Vary and Access-Control-*, status none/2xx-5xx, body) x pre-set response headers from an outer wrapper x (25%) a second request served start to finish by the same wrapped handler while the first handler is between its header operations and its WriteHeader (two requests in flight, order owned by the harness; usually the same operations with other values). Oracle: predicate 'configured and OPTIONS and >=1 Origin value and >=1 ACRM value' decides: " +
 			"handler never invoked + empty body + pre-set headers kept, or invoked exactly once with the very same request and writer, header map at entry = pre-set (+Vary suffix, ACAO/ACAC/ACEH), final response = entry + the handler's own operations; passthrough: entry == pre-set exactly. " +
 			"non-trivial = boundary of the predicate (OPTIONS with zero-valued or empty Origin/ACRM; non-OPTIONS carrying both) or a handler touching Vary/CORS names; distinct by full case.",
 		Assumptions: []string{"the recorder freezes headers at the first WriteHeader/Write like net/http does; inner handlers use statuses 200-599 only"}}.Run(t)
